@@ -217,6 +217,9 @@ func (o *Out) Emit(kind string, nontrivial bool, coq string, input, impl interfa
 	}
 	o.w.Write(b)
 	o.w.WriteByte('\n')
+	// flush per case: if the implementation under test crashes the process later,
+	// the cases emitted so far are still evaluated by the driver
+	o.w.Flush()
 	o.n++
 	return c.ID
 }
